@@ -485,8 +485,8 @@ func checkC09(c *Ctx) {
 			})
 		}
 	}
-	if n7 < 2 {
-		c.undecided("R7", "instance-floor", nil, "only %d tests of the claim-set unit's result found; 2 on the reference tree (create, takeover)", n7)
+	if n7 < 1 {
+		c.undecided("R7", "instance-floor", nil, "no test of the claim-set unit's result found (2 on the reference tree: create, takeover)")
 	}
 
 	// ---- R8: the stop call itself never waits for the store without a bound ---------------
